@@ -100,7 +100,7 @@ class Target:
             ty, nm = m.group(1).strip(), m.group(2)
             decls.append(f'  {ty} {nm};')
             args.append(nm)
-        return ('int main(void)\n{\n' + '\n'.join(decls) + f'\n  {P.cname}({", ".join(args)});\n'
+        return ('int main(void)\n{\n' + '\n'.join(decls) + f'\n  nv_thrown = 0;\n  {P.cname}({", ".join(args)});\n'
                 '  __CPROVER_assert(0, "nv_canary: end of harness reachable");\n  return 0;\n}\n')
 
     def build(self, workdir):
@@ -166,6 +166,15 @@ class Target:
         if rc != 0:
             res.update(status='undecided', reason='goto-cc failed: ' + (se or so)[-1500:])
             return res
+        # every global (ghost state, ghost indices, witnesses) starts nondeterministic: a forgotten initialisation can
+        # then never silently narrow a proof to the all-zero ghost state.  Done before DFCC adds its own statics.
+        gb1 = cfile[:-2] + '.nd.gb'
+        rc, so, se, dt = run(['goto-instrument', '--nondet-static', gb, gb1], 120)
+        res['seconds']['goto-instrument'] = dt
+        if rc != 0:
+            res.update(status='undecided', reason='goto-instrument --nondet-static failed: ' + (so + se)[-1500:])
+            return res
+        gb = gb1
         cmd = ['goto-instrument', '--dfcc', 'main']
         if self.enforce:
             cmd += ['--enforce-contract', self.enforce]
@@ -173,7 +182,7 @@ class Target:
             cmd += ['--replace-call-with-contract', g]
         cmd += ['--apply-loop-contracts', gb, gb2]
         rc, so, se, dt = run(cmd, 300)
-        res['seconds']['goto-instrument'] = dt
+        res['seconds']['goto-instrument'] += dt
         if rc != 0:
             res.update(status='undecided', reason='goto-instrument failed: ' + (so + se)[-1500:])
             return res
@@ -238,10 +247,13 @@ def summarize_trace(trace):
         lhs = st.get('lhs', '')
         if not lhs or lhs.startswith('__CPROVER') or 'dfcc' in lhs or lhs.startswith('return_value___') or '$' in lhs.split('.')[0][:0]:
             continue
-        if st.get('hidden'):
+        if st.get('hidden') and not lhs.startswith('nv_'):
             continue
         v = st.get('value', {})
         data = v.get('data', v.get('name'))
+        if v.get('name') == 'float' and v.get('width') == 64 and v.get('binary'):
+            import struct
+            data = struct.unpack('>d', int(v['binary'], 2).to_bytes(8, 'big'))[0]   # exact value, not the rounded print
         if data is None:
             continue
         fn = st.get('sourceLocation', {}).get('function', '')
